@@ -1449,7 +1449,8 @@ impl Formatter {
     if self.html {
       format!("<span class=\"mech-comment\"><span class=\"mech-comment-sigil\">--</span>{}</span>", comment_text)
     } else {
-      format!("--{}\n",comment_text)
+      // identifiers may contain dashes, so keep the sigil apart from code that precedes it on the line
+      format!(" --{}\n",comment_text)
     }
   }
 
